@@ -196,6 +196,7 @@ pub fn main(spec_path: &str) {
     let mut printer = false;
     let mut pause = false;
     let mut nprinters = 0usize;
+    let mut printers_late = false;
     let mut binds: Vec<(Vec<KeyEvent>, Cmd)> = Vec::new();
     let mut sqlite: Option<String> = None;
     let mut history2: Vec<String> = Vec::new();
@@ -237,6 +238,7 @@ pub fn main(spec_path: &str) {
             "printer" => printer = t[1] == "1",
             "pause" => pause = t[1] == "1",
             "printers" => nprinters = t[1].parse().unwrap(),
+            "printers_late" => printers_late = t[1] == "1",
             "bind" => binds.push((parse_keys(t[1]), parse_cmd(&t[2..]))),
             // an SQLite history at this path: `history` lines are entered by an earlier session (the database is then
             // closed and reopened), `history2` lines by the session the reads run in
@@ -255,7 +257,7 @@ pub fn main(spec_path: &str) {
         .max_history_size(max_hist)
         .unwrap()
         .build();
-    let st = Setup { log: log.clone(), use_helper, script, binds, printer, nprinters, reads, initial, prompt, pause };
+    let st = Setup { log: log.clone(), use_helper, script, binds, printer, nprinters, printers_late, reads, initial, prompt, pause };
     if let Some(path) = sqlite {
         let _ = std::fs::remove_file(&path);
         {
@@ -291,14 +293,47 @@ struct Setup {
     binds: Vec<(Vec<KeyEvent>, Cmd)>,
     printer: bool,
     nprinters: usize,
+    printers_late: bool,
     reads: usize,
     initial: Option<(String, String)>,
     prompt: String,
     pause: bool,
 }
 
+/// printer threads, told what to print by lines "<thread> <hex text>" on fd 4; each finished print is
+/// acknowledged on the log as "P <thread> <hex text> ok|err"
+fn spawn_printers<I: History>(rl: &mut Editor<ScriptHelper, I>, nprinters: usize, log: &Log) {
+    use rustyline::ExternalPrinter;
+    use std::io::BufRead;
+    let mut senders = Vec::new();
+    for t in 0..nprinters {
+        let mut p = rl.create_external_printer().expect("external printer");
+        let (tx, rx) = std::sync::mpsc::channel::<String>();
+        senders.push(tx);
+        let log2 = log.clone();
+        std::thread::spawn(move || {
+            for msg in rx {
+                let r = p.print(parse_str(&msg));
+                logln(&log2, &format!("P {} {} {}", t, msg, if r.is_ok() { "ok" } else { "err" }));
+            }
+        });
+    }
+    std::thread::spawn(move || {
+        let ctl = unsafe { File::from_raw_fd(4) };
+        for line in std::io::BufReader::new(ctl).lines() {
+            let Ok(line) = line else { break };
+            let mut it = line.split_whitespace();
+            let (Some(t), Some(m)) = (it.next(), it.next()) else { continue };
+            let t: usize = t.parse().unwrap_or(0);
+            if let Some(tx) = senders.get(t) {
+                let _ = tx.send(m.to_owned());
+            }
+        }
+    });
+}
+
 fn drive<I: History>(mut rl: Editor<ScriptHelper, I>, st: Setup, history: &[String]) {
-    let Setup { log, use_helper, script, binds, printer, nprinters, reads, initial, prompt, pause } = st;
+    let Setup { log, use_helper, script, binds, printer, nprinters, printers_late, reads, initial, prompt, pause } = st;
     if use_helper {
         rl.set_helper(Some(ScriptHelper { s: script, hl: MatchingBracketHighlighter::new(), calls: Mutex::new(0) }));
     }
@@ -313,36 +348,13 @@ fn drive<I: History>(mut rl: Editor<ScriptHelper, I>, st: Setup, history: &[Stri
     if printer && nprinters == 0 {
         _printer = rl.create_external_printer().ok();
     }
-    // printer threads, told what to print by lines "<thread> <hex text>" on fd 4; each finished print is
-    // acknowledged on the log as "P <thread> <hex text>"
-    if nprinters > 0 {
-        use rustyline::ExternalPrinter;
-        use std::io::BufRead;
-        let mut senders = Vec::new();
-        for t in 0..nprinters {
-            let mut p = rl.create_external_printer().expect("external printer");
-            let (tx, rx) = std::sync::mpsc::channel::<String>();
-            senders.push(tx);
-            let log2 = log.clone();
-            std::thread::spawn(move || {
-                for msg in rx {
-                    let r = p.print(parse_str(&msg));
-                    logln(&log2, &format!("P {} {} {}", t, msg, if r.is_ok() { "ok" } else { "err" }));
-                }
-            });
-        }
-        std::thread::spawn(move || {
-            let ctl = unsafe { File::from_raw_fd(4) };
-            for line in std::io::BufReader::new(ctl).lines() {
-                let Ok(line) = line else { break };
-                let mut it = line.split_whitespace();
-                let (Some(t), Some(m)) = (it.next(), it.next()) else { continue };
-                let t: usize = t.parse().unwrap_or(0);
-                if let Some(tx) = senders.get(t) {
-                    let _ = tx.send(m.to_owned());
-                }
-            }
-        });
+    if printers_late {
+        // a printer that is gone before the first read: that read starts with no printer alive
+        let p = rl.create_external_printer();
+        drop(p);
+    }
+    if nprinters > 0 && !printers_late {
+        spawn_printers(&mut rl, nprinters, &log);
     }
     logln(&log, "S ready");
     for i in 0..reads {
@@ -362,6 +374,10 @@ fn drive<I: History>(mut rl: Editor<ScriptHelper, I>, st: Setup, history: &[Stri
             }
         };
         logln(&log, &line);
+        if i == 0 && printers_late && nprinters > 0 {
+            // the printers of this session are created only now, after a read that ran without any
+            spawn_printers(&mut rl, nprinters, &log);
+        }
         if pause {
             // let the driver look at (and change) the terminal settings between two reads
             unsafe {
